@@ -39,8 +39,10 @@ for f in sorted(os.listdir(P)):
     lock.setdefault(prop, [])
     lock[prop] += names
     mods.append((mod, names))
-subprocess.run(["lake", "build", "GcArena.Audit.StmtHash"] + [f"GcArena.Props.{m}" for m, _ in mods],
-               cwd=LEAN, stdout=subprocess.PIPE, stderr=subprocess.STDOUT, text=True)
+rb = subprocess.run(["lake", "build", "GcArena.Audit.StmtHash"] + [f"GcArena.Props.{m}" for m, _ in mods],
+                    cwd=LEAN, stdout=subprocess.PIPE, stderr=subprocess.STDOUT, text=True)
+if rb.returncode != 0:
+    print("WARNING: `lake build` of the property modules failed; hashes of modules that do not build keep their accepted value")
 bad = []
 for mod, names in mods:
     if not names:
@@ -58,13 +60,24 @@ for mod, names in mods:
                 stmt[n] = old_stmt[n]
 changed = [(n, old_stmt[n], stmt[n]) for n in stmt if n in old_stmt and str(old_stmt[n]) != str(stmt[n])]
 lock["_stmt"] = stmt
+import hashlib
+lock["_audit_sha256"] = hashlib.sha256(open(os.path.join(LEAN, "GcArena", "Audit", "StmtHash.lean"), "rb").read()).hexdigest()
+old_names = {n for k, v in old.items() if not k.startswith("_") for n in v}
+new_names = {n for k, v in lock.items() if not k.startswith("_") for n in v}
+removed, added = sorted(old_names - new_names), sorted(new_names - old_names)
 json.dump(lock, open(LOCK, "w"), indent=1, sort_keys=True)
 print({k: len(v) for k, v in lock.items()})
 if bad:
     print(f"WARNING: no statement hash for {len(bad)} theorem(s) (module does not build?): {bad[:8]}")
-if changed:
+if changed or removed or added:
     with open(os.path.join(ROOT, "lib", "obligations.lock.changes.log"), "a") as f:
+        stamp = time.strftime('%Y-%m-%d %H:%M')
+        for n in removed:
+            line = f"{stamp} REMOVED from the lock (theorem deleted or renamed): {n}"
+            print(line); f.write(line + "\n")
+        for n in added:
+            line = f"{stamp} added to the lock: {n} (statement hash {stmt.get(n)})"
+            print(line); f.write(line + "\n")
         for n, o, w in changed:
-            line = f"{time.strftime('%Y-%m-%d %H:%M')} re-accepted {n}: statement hash {o} -> {w}"
-            print(line)
-            f.write(line + "\n")
+            line = f"{stamp} re-accepted {n}: statement hash {o} -> {w}"
+            print(line); f.write(line + "\n")
